@@ -24,6 +24,10 @@ pub struct Scales {
     pub tot_weighted: f64,
     /// Σ|DEMANDA values|
     pub needs: f64,
+    /// conditioning of the output sums that weight the auxiliary split: max over systems, services and steps of
+    /// Σ|SALIDA lines| / |Σ SALIDA lines| (1 when no lines cancel; the shares by service carry the f32 rounding of
+    /// those sums amplified by this number)
+    pub srv_cond: f64,
 }
 
 impl Scales {
@@ -33,7 +37,29 @@ impl Scales {
         // `n` is the length of the longest chain of f32 additions behind a figure: the steps of the year, plus the
         // lines of the file when there are hundreds of them (a 1 500-line building was observed to drift by 1.7e-5)
         let n = n + lines.len().saturating_sub(64);
-        let mut sc = Scales { n, area, ..Default::default() };
+        let mut sc = Scales { n, area, srv_cond: 1.0, ..Default::default() };
+        {
+            let mut sums: BTreeMap<(i32, Srv), (Vec<f64>, Vec<f64>)> = BTreeMap::new();
+            for l in lines {
+                if let MKind::Out { srv } = &l.kind {
+                    let e = sums.entry((l.id, *srv)).or_insert_with(|| (vec![0.0; l.vals.len()], vec![0.0; l.vals.len()]));
+                    for (t, v) in l.vals.iter().enumerate() {
+                        if t < e.0.len() {
+                            e.0[t] += *v;
+                            e.1[t] += v.abs();
+                        }
+                    }
+                }
+            }
+            for (s, a) in sums.values() {
+                for t in 0..s.len() {
+                    if a[t] > 0.0 {
+                        let c = if s[t].abs() > 0.0 { a[t] / s[t].abs() } else { 1e7 };
+                        sc.srv_cond = sc.srv_cond.max(c.min(1e7));
+                    }
+                }
+            }
+        }
         // the derived factor of cogenerated electricity belongs to the electricity carrier's
         // factors: it is unbounded when the cogenerated amount is small against its input
         let mut ft = ft.clone();
@@ -152,12 +178,14 @@ fn by_srv_share_tol(k: &str, a: &Flat, b: &Flat, sc: &Scales, mag: f64) -> Optio
             (x, y) => x.or(y),
         }
     };
+    // (never below 1e-4 of the carrier's tolerance: the share itself carries the rounding of the auxiliary split, which
+    // nearly cancelling output lines amplify; a figure of a few millionths of a kWh is not held to nine digits)
     let share = |car: &str, srv: &str| -> Option<f64> {
         let u = get(format!("cr.{}.used.epus_an", car))?;
         let us = getmax(format!("cr.{}.used.epus_by_srv_an.{}", car, srv)).unwrap_or(0.0);
-        Some(if u > 0.0 { (us / u).clamp(0.0, 1.0) } else { 1.0 })
+        Some(if u > 0.0 { (us / u).clamp(1e-4, 1.0) } else { 1.0 })
     };
-    let floor = 16.0 * EPS32 * mag + 1e-9;
+    let floor = 16.0 * EPS32 * mag * sc.srv_cond + 1e-9;
     match parts.as_slice() {
         ["cr", car, "we", which, srv] if *which == "a_by_srv" || *which == "b_by_srv" => {
             let c = ALL_CARS.iter().find(|c| c.name() == *car)?;
